@@ -486,14 +486,111 @@ def check_absorb(ck, mod, ks, label, rulemap):
     ri = f.param_index("rounds")
     ex, ps = run_paths(f, klen, word_args=[di])
     chains = data_chains(f, ps)
-    if any(len(ch_["heads"]) != 1 for ch_ in chains):
-        raise Broken("%s: several data loops in a row: unrecognised shape" % f.name)
     n = 0
     for i_, ch_ in enumerate(chains):
         # (alternative loops chosen by a test of the data pointer's alignment: each is checked on its own)
         c = Ctx(ck, f, label if len(chains) == 1 else "%s/loop-%d-of-%d" % (label, i_ + 1, len(chains)), rulemap)
-        n += _check_absorb_loop(c, f, ex, ch_["ps"], ch_["heads"][0], klen, di, ri)
+        if len(ch_["heads"]) == 1:
+            n += _check_absorb_loop(c, f, ex, ch_["ps"], ch_["heads"][0], klen, di, ri)
+        else:
+            n += _check_absorb_chain(c, f, ex, ch_["ps"], ch_["heads"], klen, di, ri)
     return n
+
+
+def _check_absorb_chain(c, f, ex, ps, heads, klen, di, ri):
+    """several data loops in a row (a bulk loop that absorbs 16 words per round, then the word loop): every loop is driven by the same
+    (cursor, remaining size) pair handed on unchanged, an iteration that consumes r bytes absorbs r/4 consecutive words, the tails follow
+    the last loop"""
+    c.defer()
+    D = gf2.wzext(gf2.sym_word(("argw", di), 8), 32)
+    S0 = [gf2.sym_word(("S", i), 32) for i in range(4)]
+    st = ("arg", 0)
+    DATA = ("arg", f.param_index("data"))
+    SIZE = Lf.s(("n", f.param_index("size")))
+    LI = {}
+    for h in heads:
+        ptrs, ints = hd_syms(f, h)
+        if len(ptrs) != 1 or len(ints) != 1:
+            raise Broken("%s: expected one cursor and one remaining length at the head of each of its %d data loops: unrecognised shape" % (f.name, len(heads)))
+        LI[h] = (("hdp", ptrs[0].id), ("hd", ints[0].id), ptrs[0].id, ints[0].id)
+    n = 0
+    seen = set()
+    for p in ps:
+        ev = calls_of(p)
+        h0 = p.blocks[0] if p.blocks else None
+        if p.end[0] == "loop-entry" and h0 == 0:
+            cur, rem, pid, iid = LI[p.end[1]]
+            ini_p, ini_n = p.env.get(("init", pid)), p.env.get(("init", iid))
+            okp = ini_p is not None and not is_word(ini_p) and ini_p == Lf.s(DATA) and ini_n == SIZE
+            c.ob(okp and not ev and p.end[1] == heads[0], "ADVANCE", "absorb-init", "cursor starts at data, remaining length at size; nothing happens before the first loop",
+                 "the first loop starts with cursor=%s remaining=%s / events %s" % (ini_p, ini_n, [e[0] for e in ev]))
+            n += 1
+            continue
+        if h0 not in LI:
+            raise Broken("%s: a path class does not start at a data loop head: unrecognised shape" % f.name)
+        cur, rem, pid, iid = LI[h0]
+        if p.end[0] == "loop-entry":
+            c2, r2, pid2, iid2 = LI[p.end[1]]
+            ini_p, ini_n = p.env.get(("init", pid2)), p.env.get(("init", iid2))
+            c.ob(ini_p == Lf.s(cur) and ini_n == Lf.s(rem) and not ev and not mode.outs_of(p), "ADVANCE", "absorb-handover", "the next loop continues with the same cursor and remaining length; nothing is absorbed in between",
+                 "between two loops: cursor %s remaining %s calls %s" % (ini_p, ini_n, [e[0] for e in ev]))
+            n += 1
+            continue
+        P = [e for e in ev if e[0] == "P"]
+        if p.end[0] == "backedge":
+            if p.end[1] != h0:
+                raise Broken("%s: nested data loops: unrecognised shape" % f.name)
+            bp, bn = p.env.get(("back", pid)), p.env.get(("back", iid))
+            adv = bn.add(Lf.s(rem), -1).const() if bn is not None and not is_word(bn) else None
+            if adv is None or adv >= 0 or (-adv) % 4 or -adv > 256:
+                raise Broken("%s: an iteration does not consume a whole number of words (remaining changes by %s): unrecognised shape" % (f.name, adv))
+            r = -adv
+            name = "block%d" % r
+            okg = any(cc[0] == "uge" and cc[2] and cc[1] == Lf({rem: 1, 1: -r}) for cc in p.conds) or ex._range(p, Lf({rem: 1}))[0] >= r
+            c.ob(okg, "ADVANCE", "absorb-guard(%s)" % name, "%d bytes are absorbed only when at least %d remain" % (r, r), "loop guard is not 'remaining >= %d'" % r)
+            c.ob(bp == Lf({cur: 1, 1: r}) and bn == Lf({rem: 1, 1: -r}), "ADVANCE", "absorb-advance(%s)" % name, "cursor += %d and remaining -= %d per iteration" % (r, r),
+                 "after an iteration cursor=%s remaining=%s (lock-step broken)" % (bp, bn))
+            seen.add(("iter", h0))
+            n += 2
+        elif p.end[0] == "ret":
+            if h0 != heads[-1]:
+                raise Broken("%s: the function returns from a loop that is not the last of its data loops: unrecognised shape" % f.name)
+            r = p.eqs.get(rem)
+            if r is None:
+                rc = residue_cases(ex, p, rem, f.name)
+                if len(rc) != 1:
+                    raise Broken("%s: a tail path does not fix the number of left-over bytes: unrecognised shape" % f.name)
+                r = rc[0]
+            name = "tail%d" % r
+            seen.add(r)
+        else:
+            continue
+        steps = word_steps(r)
+        c.ob(len(P) == len(steps), "MODE", "absorb-%s-permutations" % name, "one permutation per word (%d)" % len(steps), "%d permutation(s) where %d word(s) are absorbed" % (len(P), len(steps)))
+        if len(P) != len(steps):
+            continue
+        S = S0
+        okin = okr = True
+        for e, (off, nb) in zip(P, steps):
+            okin = okin and mode.words_eq([list(w) for w in e[3]], [S[0], gf2.wxor(S[1], D), S[2], S[3]])
+            okr = okr and e[2] == repr(Lf.s(("n", ri)))
+            Q = mode.Pw(e[1])
+            x = mode.le_bytes([mode.inbyte(cur, off + j) for j in range(nb)], nb)
+            S = [Q[0], Q[1] if nb == 4 else gf2.wxor(Q[1], W(nb)), Q[2], gf2.wxor(Q[3], x)]
+        c.ob(okin, "MODE", "absorb-%s-input" % name, "domain added to word 1 before every permutation, on the state the previous word left", "state entering a permutation of the %s differs from the specification" % name)
+        c.ob(okr, "MODE", "absorb-%s-rounds" % name, "every permutation runs the caller's round count", "a permutation of the %s does not run the caller's round count" % name)
+        final = mode.state_obj_words(ex, p, st, 4)
+        c.ob(mode.words_eq(final, S), "MODE", "absorb-%s-state" % name, "the %d byte(s) are xored into word 3 word by word, little-endian%s" % (r, "" if r % 4 == 0 else ", length of the partial word injected into word 1"),
+             "state after the %s differs from the specification: %s" % (name, mode.first_diff(final, S)))
+        ins = {k for (o, k) in mode.ins_of(p) if o == cur}
+        c.ob(ins <= set(range(r)), "INRANGE", "absorb-%s-reads" % name, "reads exactly bytes [0,%d) at the cursor" % r, "reads offsets %s with only %d byte(s) in this segment" % (sorted(ins), r))
+        c.ob(not problems(p), "MODE", "absorb-%s-clean" % name, "no unknown access", "unexpected accesses: %s" % problems(p)[:2])
+        n += 6
+    if seen != {0, 1, 2, 3} | {("iter", h) for h in heads}:
+        raise Broken("%s: the path classes found (%s) are not the residues 0..3 plus one generic iteration per loop: unrecognised shape" % (f.name, sorted(seen, key=repr)))
+    c.ob(True, "ADVANCE", "absorb-classes", "all residue classes 0..3 and the generic iteration of each of the %d loops are handled" % len(heads), "")
+    c.flush()
+    return n + 1
 
 
 def check_absorb_small(ck, mod, ks, label, rulemap, maxlen=100):
